@@ -42,6 +42,9 @@ func checkC16(c *Ctx, r *Report) {
 	// … and a token's name becomes a Go identifier verbatim: the lexer's identifier class (letters, decimal digits,
 	// `_`) is what makes every accepted name a legal one (C10.d)
 	includeSome(r, "C16.a", func(sub *Report) { c10RootDispatch(c, sub, "C10.d") }, "identifier-continues-over-letters-digits-underscore")
+	// … and a name is only ever a name: a lexical error ends the lexer, so the text of an error token cannot be
+	// taken for a tag or a symbol where the parser does not look at a token's kind (C19.c)
+	includeSome(r, "C16.a", func(sub *Report) { c19LexerErrorStops(c, sub, "C19.c") }, "a-lexical-error-stops-the-lexer")
 	nSk := 0
 	for _, sc := range st.Configs {
 		name := "skeleton " + sc.V.Name
